@@ -7,6 +7,7 @@ def run(ctx):
     M.tbl6_ingestion_siblings(ctx)
     M.who3_column_names_writers(ctx)
     M.ord12_names_loaded_before_ingest(ctx)
+    M.flw21_catalogue_sees_every_key(ctx)
     M.lit2_catalogue_literals(ctx)
     M.flw2_compaction_covers_names(ctx)
     return ctx.finish(
